@@ -312,3 +312,23 @@ MANIFEST_TEXT["C07"] = dict(engine="E-input", design_ref="DESIGN.md §4 C07",
     technique="bounded exhaustive input enumeration with an independent codec of the published format: library-written files decoded by the codec, codec-written files (all admissible writer choices) loaded and queried by the library",
     level_text="Both directions for every documented type over all small structures and boundary-directed families; this is the only check that a change applied symmetrically to serialize and load cannot hide from.",
     level_note="Trusts the independent codec as a faithful reading of the document.")
+
+C08_DRIVERS = ["c01", "c02", "c03", "c04", "c05", "c09", "c10", "c13", "c15", "c06", "c19"]
+PROPS["C08"] = dict(
+    monitor=True, drivers=C08_DRIVERS, builds=["rel", "native", "dbg"], extra_builds={"thorough": ["asan"]}, level="exploration",
+    rule="Monitor over E-input / E-hist: the drivers of C01-C06, C09, C10, C13, C15 and C19 (structures built through the safe API AND their loaded copies; every query with the extreme-argument set A(.); every iterator call history; "
+         "mapped views at good and bad offsets) are re-run in monitor mode with the bounds monitor H1 compiled into the library: every unchecked access on the query paths (low_set_unchecked, high_set_unchecked, bits::select and its two table reads, "
+         "RawVector / RawVectorMapper::word_unchecked, RankSupport::rank_unchecked) first checks its index and panics with the marker VERIF-OOB. Verdict = a VERIF-OOB panic or a reproducible fatal signal inside a library call, in builds with and without "
+         "overflow checks and with and without BMI2; wrong answers and ordinary panics are counted but ignored here (they belong to the other properties). Thorough adds an AddressSanitizer build with the hooks OFF (nightly), whose reports are verdicts too. "
+         "Distinct non-trivial = the drivers' distinct cases; bounds_monitor_hits shows the monitor was live.",
+    bounds={"quick": "the quick bounds of the eleven drivers x 3 builds", "thorough": "the thorough bounds of the eleven drivers x 3 builds + AddressSanitizer"},
+    unsafe_inventory_expected=19,
+    timeout={"quick": 1200, "thorough": 6 * 3600},
+    assumptions=["an out-of-bounds access through a site outside the H1 inventory is only seen by the debug build's std precondition checks (abort) and the ASan pass, and only if it leaves the allocation",
+                 "the inventory of unsafe sites is re-counted from /repo/src at run time and reported (unsafe_inventory_sites); a changed count is information, not a verdict"],
+)
+MANIFEST_TEXT["C08"] = dict(engine="E-input", design_ref="DESIGN.md §4 C08",
+    technique="bounded exhaustive exploration (the input / history spaces of eleven drivers) under a bounds monitor compiled into every unchecked access, in three build configurations, plus AddressSanitizer in the thorough tier",
+    level_text="Every structure, argument and call history the other drivers enumerate is replayed with an index check in front of every unchecked read on the query paths, in optimized builds without overflow checks (where a wrapped sum really walks off a buffer), "
+               "with the BMI2 and the portable select, and with overflow checks; ASan gives an independent verdict that does not depend on hook placement.",
+    level_note="Coverage is that of the underlying drivers; accesses outside the hook inventory rely on ASan / debug-std checks.")
